@@ -388,8 +388,12 @@ func (e *Enc) loopModset(li *loopInfo) []string {
 		}
 	}
 	if all || e.pass == 1 {
-		// pass 1 does not know the write sets yet: havoc everything known so far
+		// pass 1 does not know the write sets yet: havoc everything known so far. An unknown call ("*") cannot
+		// touch lock state, function-level ghosts or defer flags: those are havocked only if written explicitly.
 		for _, n := range e.heapOrder {
+			if e.pass == 2 && (n == "$held" || strings.HasPrefix(n, "$g$") || strings.HasPrefix(n, "$defer")) {
+				continue
+			}
 			set[n] = true
 		}
 	}
